@@ -474,6 +474,107 @@ Section Trans.
   Qed.
 End Trans.
 
+(* ---- transitivity of CmpTotal, for every injective order of the types ---- *)
+Lemma lift_id o : o <> OUn -> lift_total o = o.
+Proof. destruct o; auto. intros H. now exfalso. Qed.
+
+Lemma bytes_cmp_never_unc x : forall y, bytes_cmp x y <> OUn.
+Proof.
+  induction x as [|a x IH]; intros [|b y]; cbn; try discriminate.
+  destruct (a ?= b); try discriminate. apply IH.
+Qed.
+
+Lemma lexc_never_unc f x : (forall p q, f p q <> OUn) -> forall y, lexc f x y <> OUn.
+Proof.
+  intros Hf. induction x as [|a x IH]; intros [|b y]; cbn; try discriminate.
+  specialize (Hf a b). destruct (f a b); auto; try discriminate.
+Qed.
+
+Lemma tag_num v : tag v = 2 -> is_num v = true.
+Proof.
+  destruct v; intros H; try reflexivity; try discriminate H.
+  - destruct sub; discriminate H.
+  - exfalso. unfold tag in H. lia.
+Qed.
+
+Ltac tagkill H :=
+  first [ discriminate H
+        | (exfalso; unfold tag in H; lia)
+        | (match type of H with context [VList ?s _] => destruct s end;
+           first [discriminate H | (exfalso; unfold tag in H; lia)]) ].
+
+Section TransTotal.
+  Variable p : value -> bool.
+  Hypothesis p_num : forall a b c o, is_num a = true -> is_num b = true -> is_num c = true ->
+    p a = true -> p b = true -> p c = true ->
+    comp (cmp_num a b) (cmp_num b c) = Some o -> cmp_num a c = o.
+  Variable rk : N -> Z.
+  Hypothesis rk_inj : forall t t', rk t = rk t' -> t = t'.
+
+  Let T := cmpg rk true.
+  Let L (a b : value) := lift_total (inner rk true a b).
+
+  Lemma total_same_tag n a b c :
+    (forall x y z, (vsize x < n)%nat -> okv p x -> okv p y -> okv p z -> TransAt T x y z) ->
+    (vsize a < S n)%nat -> okv p a -> okv p b -> okv p c ->
+    tag a = tag b -> tag b = tag c -> TransAt L a b c.
+  Proof.
+    intros IH Sz Oa Ob Oc Tab Tbc o. unfold L.
+    destruct (is_num a) eqn:Na.
+    { assert (Ta : tag a = 2) by (destruct a; try discriminate Na; reflexivity).
+      assert (Nb : is_num b = true) by (apply tag_num; congruence).
+      assert (Nc : is_num c = true) by (apply tag_num; congruence).
+      rewrite !(inner_num_l rk true a), (inner_num_l rk true b) by assumption.
+      rewrite !lift_id by (now apply cmp_num_never_unc).
+      apply p_num; auto using okv_num. }
+    destruct a; try discriminate Na.
+    - destruct b; try (tagkill Tab). destruct c; try (tagkill Tbc).
+      cbn. intros H. fin H.
+    - destruct b; try (tagkill Tab). destruct c; try (tagkill Tbc).
+      repeat match goal with x : bool |- _ => destruct x end; cbn; intros H; fin H.
+    - destruct b; try (tagkill Tab). destruct c; try (tagkill Tbc).
+      cbn [inner]. rewrite !lift_id by apply bytes_cmp_never_unc. apply bytes_cmp_trans.
+    - destruct b; try (tagkill Tab). destruct c; try (tagkill Tbc).
+      cbn [inner].
+      rewrite !lift_id by (apply lexc_never_unc; intros x y; apply (cmp_total_never_unc rk x y)).
+      apply lexc_trans. intros x y z Hx Hy Hz. apply IH.
+      + pose proof (vsize_list_in sub l x Hx). lia.
+      + apply (okv_list_in p sub l); auto.
+      + apply (okv_list_in p sub0 l0); auto.
+      + apply (okv_list_in p sub1 l1); auto.
+    - destruct b; try (tagkill Tab). destruct c; try (tagkill Tbc).
+      cbn [inner]. destruct (equal (VMap m) (VMap m0)), (equal (VMap m0) (VMap m1)),
+        (equal (VMap m) (VMap m1)); cbn; intros H; fin H.
+    - destruct b; try (tagkill Tab). destruct c; try (tagkill Tbc).
+      cbn [inner]. destruct (equal (VOpaque ty id) (VOpaque ty0 id0)),
+        (equal (VOpaque ty0 id0) (VOpaque ty1 id1)), (equal (VOpaque ty id) (VOpaque ty1 id1));
+        cbn; intros H; fin H.
+  Qed.
+
+  Lemma total_trans_n n : forall a b c,
+    (vsize a < n)%nat -> okv p a -> okv p b -> okv p c -> TransAt T a b c.
+  Proof.
+    induction n as [|n IH]; intros a b c Sz Oa Ob Oc o; [lia|].
+    unfold T. rewrite !cmpg_unfold. unfold rkcmp.
+    destruct (Z.compare_spec (rk (tag a)) (rk (tag b))) as [E1|L1|L1],
+             (Z.compare_spec (rk (tag b)) (rk (tag c))) as [E2|L2|L2],
+             (Z.compare_spec (rk (tag a)) (rk (tag c))) as [E3|L3|L3]; try lia.
+    - apply (total_same_tag n a b c IH Sz Oa Ob Oc (rk_inj _ _ E1) (rk_inj _ _ E2)).
+    - destruct (inner rk true a b); cbn; intros H; fin H.
+    - destruct (inner rk true a b); cbn; intros H; fin H.
+    - destruct (inner rk true b c); cbn; intros H; fin H.
+    - cbn; intros H; fin H.
+    - cbn; intros H; fin H.
+    - cbn; intros H; fin H.
+    - cbn; intros H; fin H.
+    - destruct (inner rk true b c); cbn; intros H; fin H.
+    - cbn; intros H; fin H.
+    - cbn; intros H; fin H.
+    - cbn; intros H; fin H.
+    - cbn; intros H; fin H.
+  Qed.
+End TransTotal.
+
 Lemma exact_of_num a : nums_all is_exact a = true -> is_num a = true -> is_exact a = true.
 Proof. destruct a; try discriminate; auto. Qed.
 
@@ -492,6 +593,28 @@ Theorem cmp_trans_inexact a b c :
   TransAt cmp a b c.
 Proof.
   intros Wa Wb Wc A B C. apply (cmp_trans_n is_float) with (n := S (vsize a)); try lia; try (split; assumption).
+  intros x y z o _ _ _. apply cmp_num_trans_float.
+Qed.
+
+Definition injective (rk : N -> Z) : Prop := forall t t', rk t = rk t' -> t = t'.
+
+Theorem cmp_total_trans_exact rk a b c :
+  injective rk -> wf a -> wf b -> wf c ->
+  nums_all is_exact a = true -> nums_all is_exact b = true -> nums_all is_exact c = true ->
+  TransAt (cmp_total rk) a b c.
+Proof.
+  intros I Wa Wb Wc A B C. unfold cmp_total.
+  apply (total_trans_n is_exact) with (n := S (vsize a)); try lia; try (split; assumption); auto.
+  intros x y z o _ _ _. apply cmp_num_trans_exact.
+Qed.
+
+Theorem cmp_total_trans_inexact rk a b c :
+  injective rk -> wf a -> wf b -> wf c ->
+  nums_all is_float a = true -> nums_all is_float b = true -> nums_all is_float c = true ->
+  TransAt (cmp_total rk) a b c.
+Proof.
+  intros I Wa Wb Wc A B C. unfold cmp_total.
+  apply (total_trans_n is_float) with (n := S (vsize a)); try lia; try (split; assumption); auto.
   intros x y z o _ _ _. apply cmp_num_trans_float.
 Qed.
 
